@@ -2,7 +2,7 @@
  * Contract on the real Avoid::bends (cola/libavoid/makepath.cpp), verified with
  * orthogonalDirection/dirLeft/dirRight/dirReverse inlined (they are mechanism, DESIGN 1.1).
  * MINB is generated on every run by tools/minb.py (independent search, not from the code). */
-struct Point { double x; double y; unsigned int id; unsigned short vn; };
+struct __attribute__((packed)) Point { double x; double y; unsigned int id; unsigned short vn; };   /* packed: CBMC's C++ layout */
 
 @MINB@
 
@@ -26,6 +26,7 @@ __CPROVER_ensures(__CPROVER_return_value <=
 __CPROVER_assigns()
 ;
 
+#if defined(JOB_bends)
 void h_bends(void)
 {
     void *curr, *dest;
@@ -33,3 +34,55 @@ void h_bends(void)
     w_bends(curr, currDir, dest, destDir);
     VERIF_CANARY;
 }
+#endif
+
+/* ------------------------------------------------------------------------------------------------
+ * estimatedCostSpecific, orthogonal branch: the bend count it charges (middle fragment from `int bendCount = 0;`
+ * to the line that multiplies it by the segment penalty) never exceeds the true minimum number of bends over the
+ * permitted arrival directions.  `bends` is replaced by its contract above; its requires clauses are obligations at
+ * each of the four call sites. */
+#if defined(JOB_bendcount)
+/* spec helpers over scalars (each pointer is dereferenced once in the contract, not once per macro expansion) */
+static int sgn_of(double a, double b) { return b > a ? 1 : (b < a ? -1 : 0); }
+static int dix_of(unsigned int d) { return d == 1u ? 0 : d == 2u ? 1 : d == 4u ? 2 : 3; }
+/* minimum of MINB over the permitted arrival directions (10 if none is permitted: then every estimate is admissible) */
+static int minb_over(unsigned int dirs, unsigned int currDir, double cx, double cy, double tx, double ty)
+{
+    int best = 10, sy = sgn_of(cy, ty) + 1, sx = sgn_of(cx, tx) + 1, c = dix_of(currDir);
+    if ((dirs & 1u) && MINB[0][c][sy][sx] < best) best = MINB[0][c][sy][sx];
+    if ((dirs & 2u) && MINB[1][c][sy][sx] < best) best = MINB[1][c][sy][sx];
+    if ((dirs & 4u) && MINB[2][c][sy][sx] < best) best = MINB[2][c][sy][sx];
+    if ((dirs & 8u) && MINB[3][c][sy][sx] < best) best = MINB[3][c][sy][sx];
+    return best;
+}
+/* direction of the last segment (last -> curr) as a single bit, or 0 if it is not axis-parallel / has zero length */
+static unsigned int segdir(double lx, double ly, double cx, double cy)
+{
+    if (lx == cx && cy < ly) return 1u;
+    if (ly == cy && cx > lx) return 2u;
+    if (lx == cx && cy > ly) return 4u;
+    if (ly == cy && cx < lx) return 8u;
+    return 0u;
+}
+#define MINB_OVER(dirs, cd, c, d) minb_over(dirs, cd, PX(c), PY(c), PX(d), PY(d))
+#define SEGDIR(l, c) segdir(PX(l), PY(l), PX(c), PY(c))
+/* finite coordinates: with infinities inf - inf is NaN and 'xmove != 0' no longer means 'x differs' */
+#define NOTNAN_PT(p) (IS_FINITE(PX(p)) && IS_FINITE(PY(p)))
+int w_bendcount(void *last, void *curr, void *tar, double dist, unsigned int costTarDirs)
+__CPROVER_requires(__CPROVER_is_fresh(curr, sizeof(struct Point)) && __CPROVER_is_fresh(tar, sizeof(struct Point)))
+__CPROVER_requires(last == (void *)0 || __CPROVER_is_fresh(last, sizeof(struct Point)))
+__CPROVER_requires(NOTNAN_PT(curr) && NOTNAN_PT(tar) && (last == (void *)0 || NOTNAN_PT(last)))
+/* dist is the Manhattan distance curr -> target: zero exactly when the two points coincide */
+__CPROVER_requires(dist >= 0.0 && ((dist == 0.0) == (PX(curr) == PX(tar) && PY(curr) == PY(tar))))
+__CPROVER_ensures(__CPROVER_return_value >= 0)
+/* first point of a path, heading still free: one bend is needed iff the target is in line in neither dimension */
+__CPROVER_ensures(last == (void *)0 ==> __CPROVER_return_value <= ((PX(curr) != PX(tar) && PY(curr) != PY(tar)) ? 1 : 0))
+/* arriving on an axis-parallel segment: at most the true minimum over the permitted arrival directions */
+__CPROVER_ensures((last != (void *)0 && dist > 0.0 && SEGDIR(last, curr) != 0u) ==>
+                  __CPROVER_return_value <= MINB_OVER(costTarDirs, SEGDIR(last, curr), curr, tar))
+/* otherwise (at the target, or no usable heading) nothing is charged */
+__CPROVER_ensures((last != (void *)0 && (dist == 0.0 || SEGDIR(last, curr) == 0u)) ==> __CPROVER_return_value == 0)
+__CPROVER_assigns()
+;
+void h_bendcount(void) { void *last, *curr, *tar; double dist; unsigned int dirs; w_bendcount(last, curr, tar, dist, dirs); VERIF_CANARY; }
+#endif
